@@ -56,14 +56,14 @@ JudgeToks(c, r, order, k, p) ==
           ELSE "token-type-differs"
 
 \* contextual refines basic (statement of C07, second sentence)
-\* r.among: the terminal sets of the parser states the contextual run went through.  A keyword that is embedded in a
-\* regexp for the full terminal set but not inside such a state (the regexp is not acceptable there) competes there under its
-\* own width - 'start: "if" "=" NAME | "if=" NAME "+"' on 'if=a': basic types 'if' through NAME, the start state's lexer
+\* r.among: the terminal sets of the parser states the contextual run went through.  A keyword (a string on the unless list
+\* of a regexp) whose regexp is not acceptable in such a state competes there under its own width, while the full lexer reaches
+\* it through the regexp - 'start: "if" "=" NAME | "if=" NAME "+"' on 'if=a': basic types 'if' through NAME, the start state's lexer
 \* holds IF and "if=" only and takes the longer "if=" (hunted defect 34)
 KeywordLostInContext(c, r) ==
   \E k \in DOMAIN r.among :
      LET ctx == SetOf(r.among[k]) \cup Ign(TT(c)) IN
-     \E s \in ctx : s \in Embedded(TT(c), c.SM, DOMAIN c.T) /\ s \notin Embedded(TT(c), c.SM, ctx)
+     \E s \in ctx, rr \in (DOMAIN c.T) \ ctx : ~TT(c)[rr].isstr /\ s \in Unless(TT(c), c.SM, rr)
 JudgeRefine(c, r) ==
   LET sfx == IF KeywordLostInContext(c, r) THEN "@keyword-lost-in-context" ELSE "" IN
   IF r.basicacc /\ ~r.overlap /\ ~r.ctxacc THEN "contextual-rejects-what-basic-accepts" \o sfx
